@@ -36,6 +36,10 @@ def main():
     a = ap.parse_args()
     prop, tier = a.prop, a.tier
     seed = int(os.environ.get("VERIF_SEED", "1") or "1")
+    if a.replay:
+        # a replay re-runs under the seed and tier of the run that found it (searches of `extra` are derived from them)
+        _rp = json.load(open(a.replay))
+        seed, tier = int(_rp.get("seed", seed)), _rp.get("tier", tier)
     t0 = time.time()
     mod = importlib.import_module("vlib.p_" + prop.lower())
     rng = C.SplitMix(seed).fork(prop + "/" + tier)
@@ -95,6 +99,8 @@ def main():
         if a.replay:
             # findings that are not harness requests (a client program, a table entry): replayed by re-running the property's own search
             nonreq = [q for q in fixed_requests if q.startswith(("probe ", "table entry ", "chi-square ", "enum32 "))]
+            if (rp.get("failing_input") or {}).get("source") == "extra":
+                nonreq = list(fixed_requests)      # found by the property's own search over the implementation: that search is what is replayed
             if nonreq and hasattr(mod, "extra"):
                 for item in mod.extra(binary, build, tier, rng.fork("extra" + build)):
                     if item.pop("kind") == "oracle" and item["request"] in nonreq:
@@ -162,6 +168,7 @@ def main():
             for item in mod.extra(binary, build, tier, rng.fork("extra" + build)):
                 kind = item.pop("kind")
                 if kind == "oracle":
+                    item["source"] = "extra"
                     oracle_fail.append(item)
                 elif kind == "count":
                     evaluations += item["n"]
@@ -237,6 +244,7 @@ def main():
     os.makedirs(os.path.join(C.VERIF, "replays"), exist_ok=True)
     rpath = os.path.join(C.VERIF, "replays", "%s-%s-%d.json" % (prop, tier, seed))
     violation["property"] = prop
+    violation["seed"], violation["tier"] = seed, tier
     violation["how_to_rerun"] = "./check.py %s --replay %s" % (prop, rpath)
     fi = violation.get("failing_input") or violation.get("first_disagreement")
     if fi:
